@@ -50,6 +50,14 @@ type Opts struct {
 	// ViaNew: the writer comes from NewConsoleWriter (configured with decoy options) and gets its real
 	// options assigned afterwards
 	ViaNew bool `json:"via_new_console_writer,omitempty"`
+	// CustomParts: FormatTimestamp/Level/Caller/Message are marker-adding functions (T(v) L(v) C(v) M(v)
+	// with v the decoded value, <nil> when the event lacks the part): every configured part appears,
+	// in PartsOrder, through the formatter that belongs to it
+	CustomParts bool `json:"custom_part_formatters,omitempty"`
+	// Prepare: FormatPrepare adds the field prepared=yes to the decoded event; Extra: FormatExtra
+	// appends " EXTRA" after the last field
+	Prepare bool `json:"format_prepare,omitempty"`
+	Extra   bool `json:"format_extra,omitempty"`
 }
 
 type Case struct {
@@ -157,6 +165,19 @@ func check(c *Case) (msg string, full bool, nontrivial bool) {
 		w.FormatFieldValue = func(i interface{}) string { return fmt.Sprintf("[%s]", i) }
 		w.FormatErrFieldName = func(i interface{}) string { return fmt.Sprintf("!%s=", i) }
 		w.FormatErrFieldValue = func(i interface{}) string { return fmt.Sprintf("{%s}", i) }
+	}
+	if c.Opts.CustomParts {
+		w.FormatTimestamp = func(i interface{}) string { return fmt.Sprintf("T(%v)", i) }
+		w.FormatLevel = func(i interface{}) string { return fmt.Sprintf("L(%v)", i) }
+		w.FormatCaller = func(i interface{}) string { return fmt.Sprintf("C(%v)", i) }
+		w.FormatMessage = func(i interface{}) string { return fmt.Sprintf("M(%v)", i) }
+	}
+	if c.Opts.Prepare {
+		w.FormatPrepare = func(m map[string]interface{}) error { m["prepared"] = "yes"; return nil }
+		evt["prepared"] = "yes"
+	}
+	if c.Opts.Extra {
+		w.FormatExtra = func(m map[string]interface{}, b *bytes.Buffer) error { b.WriteString(" EXTRA"); return nil }
 	}
 	loc := time.Local
 	if c.Opts.Zone != nil {
@@ -298,6 +319,12 @@ func check(c *Case) (msg string, full bool, nontrivial bool) {
 	}
 	nontrivial = len(rest) >= 3 && (nQuoted+nComposite) > 0 && (c.Opts.PartsOrder != nil || len(c.Opts.PartsExclude) > 0 || len(c.Opts.FieldsOrder) > 0 || len(c.Opts.FieldsExclude) > 0 || c.Opts.TimeFormat != "" || c.Opts.Zone != nil)
 	body := strings.TrimSuffix(got, "\n")
+	if c.Opts.Extra {
+		if !strings.HasSuffix(body, " EXTRA") {
+			return fmt.Sprintf("FormatExtra's text is not at the end of the line: %q", got), false, nontrivial
+		}
+		body = strings.TrimSuffix(body, " EXTRA")
+	}
 	var prefix string
 	matched := false
 	for _, cand := range candidates {
@@ -332,6 +359,22 @@ func check(c *Case) (msg string, full bool, nontrivial bool) {
 			continue
 		}
 		s := ""
+		if c.Opts.CustomParts {
+			switch p {
+			case lvlF:
+				s = fmt.Sprintf("L(%v)", evt[p])
+			case tsF:
+				s = fmt.Sprintf("T(%v)", evt[p])
+			case msgF:
+				s = fmt.Sprintf("M(%v)", evt[p])
+			case callerF:
+				s = fmt.Sprintf("C(%v)", evt[p])
+			default:
+				full = false
+			}
+			ps = append(ps, s)
+			continue
+		}
 		// a name can stand for several parts when field names were configured equal: first match in
 		// the writer's switch order (level, timestamp, message, caller)
 		switch p {
@@ -483,6 +526,9 @@ func genOpts(rt *rapid.T, set lp.Settings, keys []string) Opts {
 	}
 	o.CustomFmt = rapid.IntRange(0, 3).Draw(rt, "customfmt") == 0
 	o.ViaNew = rapid.IntRange(0, 2).Draw(rt, "vianew") == 0
+	o.CustomParts = rapid.IntRange(0, 4).Draw(rt, "customparts") == 0
+	o.Prepare = rapid.IntRange(0, 5).Draw(rt, "prepare") == 0
+	o.Extra = rapid.IntRange(0, 5).Draw(rt, "extra") == 0
 	o.TimeFormat = rapid.SampledFrom([]string{"", "", time.RFC3339, time.RFC3339Nano, "15:04:05.000", "2006-01-02"}).Draw(rt, "tf")
 	if rapid.IntRange(0, 3).Draw(rt, "zone") != 0 {
 		z := rapid.SampledFrom([]int{0, 3600, -28800, 19800}).Draw(rt, "z")
